@@ -83,7 +83,7 @@ lemma('byte_extract', vars={'v': 'int', 'm': 'int', 'j': 'int'},
       concl=['tb_byte(pmod(pmod(v, 2 ** (8 * m)), 2 ** (8 * m)), m, True, j) == (v // 2 ** (8 * j)) % 256'],
       by='axiom', triggers=['tb_byte(pmod(pmod(v, 2 ** (8 * m)), 2 ** (8 * m)), m, True, j)'], props=['C07'])
 
-contract(EX + '._numeric_value', props=['C07', 'C06'], params={'label_scope': 'LabelScope?'},
+contract(EX + '._numeric_value', props=['C07', 'C06', 'C14'], params={'label_scope': 'LabelScope?'},
          requires=['self.token_type.value == 0 or self.token_type.value == 1',
                    'implies(self.token_type.value == 0, union_is_int(self.value))',
                    'implies(self.token_type.value == 1, union_is_str(self.value))',
